@@ -88,9 +88,11 @@ class WebSession(object):
             else:
                 error = False
 
+            # Hand the connection back first, as BaseSession does: a
+            # listener that fails must not leave it checked out.
+            self._current_session.recycle()
             self._current_session.event_dispatcher.notify(
                 self._current_session.SessionEvent.end_session, error=error)
-            self._current_session.recycle()
 
     @asyncio.coroutine
     def start(self):
